@@ -68,17 +68,29 @@ SLICES = {
     'internal-nestedsub': (('internal', 'nestedsub'), X.tf_internal, ap_intsub, 1),
     'internal-fn': (('internal', 'internalfn'), X.tf_internal, ap_internal, 1),
     'functions': (BASE + ('functions', 'elemental'), X.tf_functions(), ap_functions, 3),
+    'functions-elseif': (('functions', 'fnelseif'), X.tf_functions(), ap_functions, 1),
+    'functions-inlineif': (('functions', 'fninlineif', 'exitcycle'), X.tf_functions(), ap_functions, 1),
+    'functions-while': (('functions', 'fnwhile', 'while'), X.tf_functions(), ap_functions, 1),
+    'functions-nestedargs': (('functions', 'elemental', 'fnnest'), X.tf_functions(), ap_functions, 1),
+    'functions-resclash': (('functions', 'elemental', 'resclash', 'nested'), X.tf_functions(), ap_functions, 1),
+    'functions-print': (('functions', 'printrefs'), X.tf_functions(), ap_functions, 1),
     'functions-all': (('functions',), X.tf_functions(explicit=False), ap_functions, 1),
     'elemental': (('functions', 'elemental', 'select'), X.tf_elemental, ap_elemental, 1),
     'stmtfunc': (('stmtfunc', 'consts', 'select'), X.tf_stmtfunc, ap_stmtfunc, 2),
+    'stmtfunc-bare': (('stmtfunc', 'sfbare'), X.tf_stmtfunc, ap_stmtfunc, 1),
     'stmtfunc-nested': (('stmtfunc', 'sfnest'), X.tf_stmtfunc, ap_stmtfunc, 1),
     'stmtfunc-fn': (('stmtfunc', 'functions'), X.tf_stmtfunc, ap_stmtfunc, 1),
     'constants': (('consts', 'localconst', 'internal', 'select'), X.tf_constants(True), ap_extconsts, 2),
+    'constants-kindfn': (('consts', 'kindfn'), X.tf_constants(True), ap_extconsts, 1),
+    'constants-dep': (('consts', 'constdep'), X.tf_constants(True), ap_extconsts, 1),
+    'constants-internal': (('consts', 'internal', 'constinternal'), X.tf_constants(True), ap_extconsts, 1),
+    'constants-print': (('consts', 'printrefs'), X.tf_constants(True), ap_extconsts, 1),
     'constants-all': (('consts', 'localconst', 'internal'), X.tf_constants(False), ap_consts, 1),
-    'xform-default': (('modsubs', 'marked', 'functions', 'elemental', 'stmtfunc', 'consts', 'internal'),
-                      X.tf_transformation(), ap_any, 1),
-    'xform-all': (('modsubs', 'marked', 'functions', 'elemental', 'stmtfunc', 'consts', 'internal'),
-                  X.tf_transformation(inline_constants=True, inline_stmt_funcs=True, inline_internals=True, remove_dead_code=False), ap_any, 1),
+    'xform-default': (('modsubs', 'marked', 'functions', 'elemental'), X.tf_transformation(), ap_any, 2),
+    'xform-all': (('modsubs', 'marked', 'stmtfunc', 'consts', 'internal'),
+                  X.tf_transformation(inline_constants=True, inline_stmt_funcs=True, inline_internals=True, inline_elementals=False,
+                                      remove_dead_code=False), ap_any, 2),
+    'xform-noimports': (('modsubs', 'marked', 'elemental', 'imported'), X.tf_transformation(adjust_imports=False, remove_dead_code=False), ap_any, 1),
 }
 
 
